@@ -277,23 +277,38 @@ func truncateLastCommit(
 	// Remove the last commit from the list.
 	commits = commits[:len(commits)-1]
 	observation.CommitReports[chain] = commits
+	removedIDs := make(map[cciptypes.Bytes32]struct{})
 	for seqNum, msg := range observation.Messages[chain] {
 		if lastCommit.SequenceNumberRange.Contains(seqNum) {
 			// Remove the message from the observation.
 			delete(observation.Messages[chain], seqNum)
 			// Remove the token data from the observation.
 			delete(observation.TokenData[chain], seqNum)
-			// Remove costly messages
-			for i, costlyMessage := range observation.CostlyMessages {
-				if costlyMessage == msg.Header.MessageID {
-					observation.CostlyMessages = append(observation.CostlyMessages[:i], observation.CostlyMessages[i+1:]...)
-				}
-			}
+			removedIDs[msg.Header.MessageID] = struct{}{}
 			// Leaving Nonces untouched
 		}
 	}
+	// Remove costly messages
+	observation.CostlyMessages = removeCostlyMessages(observation.CostlyMessages, removedIDs)
 
 	return observation
+}
+
+// removeCostlyMessages returns the costly message IDs that are not in ids, in their original order.
+func removeCostlyMessages(
+	costlyMessages []cciptypes.Bytes32,
+	ids map[cciptypes.Bytes32]struct{},
+) []cciptypes.Bytes32 {
+	if costlyMessages == nil {
+		return nil
+	}
+	kept := make([]cciptypes.Bytes32, 0, len(costlyMessages))
+	for _, costlyMessage := range costlyMessages {
+		if _, ok := ids[costlyMessage]; !ok {
+			kept = append(kept, costlyMessage)
+		}
+	}
+	return kept
 }
 
 // truncateChain removes all data related to the given chain from the observation.
@@ -306,27 +321,17 @@ func truncateChain(
 	if _, ok := observation.CommitReports[chain]; !ok {
 		return observation
 	}
+	// To remove costly message IDs we need the IDs of the messages that belong to the chain.
 	messageIDs := make(map[cciptypes.Bytes32]struct{})
-	// To remove costly message IDs we need to iterate over all messages and find the ones that belong to the chain.
-	for _, seqNumMap := range observation.Messages {
-		for _, message := range seqNumMap {
-			messageIDs[message.Header.MessageID] = struct{}{}
-		}
-	}
-
-	deleteCostlyMessages := func() {
-		for i, costlyMessage := range observation.CostlyMessages {
-			if _, ok := messageIDs[costlyMessage]; ok {
-				observation.CostlyMessages = append(observation.CostlyMessages[:i], observation.CostlyMessages[i+1:]...)
-			}
-		}
+	for _, message := range observation.Messages[chain] {
+		messageIDs[message.Header.MessageID] = struct{}{}
 	}
 
 	delete(observation.CommitReports, chain)
 	delete(observation.Messages, chain)
 	delete(observation.TokenData, chain)
 	delete(observation.Nonces, chain)
-	deleteCostlyMessages()
+	observation.CostlyMessages = removeCostlyMessages(observation.CostlyMessages, messageIDs)
 
 	return observation
 }
